@@ -30,9 +30,45 @@ def run(tier, R):
         cfgs += [("serial64", "release"), ("notables", "release")]
     FS = ctx.facts_for(R, cfgs)
     R.trust("rustc MIR construction and Instance::try_resolve; mirfacts exporter; lib/mirlib.py reachability and slices")
-    R.assume("the double-base scalar multiplication and compression compute [S]B-[k]A and its canonical encoding (C04/C03 value-level, not decided here)")
+    R.assume("vartime_double_scalar_mul_basepoint(a, A, b) = aA + bB (C04 LINCOMB) and compress is the canonical encoding (C03 formula); C09.sem gives them exactly that meaning")
     for (cfg, mode), F in FS.items():
         check_cfg(F, R, cfg, legacy=(cfg == "simd-legacy"))
+
+
+_SEM = {}
+
+
+def sem_results(F):
+    if id(F) not in _SEM:
+        import sig_rules as SR
+        _SEM[id(F)] = list(SR.verify_rules(F))
+    return _SEM[id(F)]
+
+
+def sem_equation_ok(F):
+    eq = [st for entry, clause, f, st, msg in sem_results(F) if clause == "equation"]
+    return len(eq) == 2 and all(st == "ok" for st in eq)
+
+
+def semantic(F, R, I, legacy):
+    """BATCHEQ domain (lib/sig_rules.py): the verification equation and the rejection scenarios of verify / verify_strict on a symbolic key, message and signature"""
+    import sig_rules as SR
+    n = 0
+    for entry, clause, f, status, msg in sem_results(F):
+        inst = I("%s:%s" % (entry, clause))
+        if legacy and clause == "reject_S":
+            continue        # the legacy build deliberately accepts some non-canonical S (C09.legacy_S decides that it does so only there)
+        if status == "ok":
+            n += 1
+            R.ok("C09.sem", inst, msg)
+        elif status == "viol":
+            n += 1
+            R.viol("C09.sem", inst, msg, F.loc(f) if f else "")
+        elif status == "missing":
+            R.anchor_missing("C09.sem", inst, msg)
+        else:
+            R.note("C09.sem %s inconclusive (%s): the structural rules decide" % (inst, msg[:160]))
+    R.floor("C09.sem", I("verification clauses decided on symbolic inputs"), n, 9 if legacy else 11)
 
 
 def check_cfg(F, R, cfg, legacy):
@@ -216,7 +252,11 @@ def check_cfg(F, R, cfg, legacy):
                 msg = "compress([k](-self.point) + [signature.s]B), k = H(ctx, signature.R, self.compressed, M)" if good else \
                     "recompute_R wiring wrong: k<-compute_challenge(context, sig.R, self.compressed, M) %s; A<- -self.point %s; b<-signature.s %s; got %s" % (
                         k_ok, A_ok, b_ok, ex.show(e, 6))
-        (R.ok if good else R.viol)("C09.recompute_R", I("recompute_R"), msg, *(() if good else (fv.loc(),)))
+        if not good and sem_equation_ok(F):
+            # the structural form is not recognised but the equation is decided semantically (both entry points reach recompute_R)
+            R.ok("C09.recompute_R", I("recompute_R"), "structural form not recognised; decided by C09.sem verify:equation and verify_strict:equation")
+        else:
+            (R.ok if good else R.viol)("C09.recompute_R", I("recompute_R"), msg, *(() if good else (fv.loc(),)))
     # cores call recompute_R(self, ctx, &signature(internal), message)
     for f in entries:
         fv = view(F, f)
@@ -260,6 +300,7 @@ def check_cfg(F, R, cfg, legacy):
                                                "VerifyingKey built with unrelated point/compressed: compressed=%s point=%s" % (ex.show(ec), ex.show(ep)),
                                                *(() if good else (fv.loc(s[3]),)))
     R.floor("C09.key_invariant", I("VerifyingKey aggregate sites"), n_agg, 2)
+    semantic(F, R, I, legacy)
     # legacy rule must not leak into the default configuration
     if not legacy:
         leak = []
